@@ -566,6 +566,18 @@ class Compiler:
       exname = "TypeError"        # raise("text"): exceptions must derive from BaseException
     self.raise_exc(exname)
 
+  def s_Assert(self, s):
+    c = self.cond(s.test)
+    if isinstance(c, BK):
+      if not c.v:
+        self.raise_exc("AssertionError")
+      return
+    br = self._emit(ir.Branch(cond=c, t=None, f=None))
+    self.dangling = [(br, "f")]
+    self.raise_exc("AssertionError")
+    self.dangling = [(br, "t")]
+    self.label()
+
   def assigned_names(self, stmts):
     out = []
     for s in stmts:
@@ -1090,6 +1102,8 @@ class Compiler:
         raise TranslationError("attribute %s.%s assigned under dynamic control flow but not modelled as shared" % (obj.name, attr))
       obj.attrs[attr] = val
       return
+    if attr in self.sc.ignored_attr_stores and isinstance(base, (SE, SO)):
+      return
     raise TranslationError("attribute store on %r" % (base,))
 
   def container_model(self, v):
@@ -1136,6 +1150,12 @@ class Compiler:
     raise TranslationError("unary operator")
 
   def binop(self, op, a, b):
+    if isinstance(op, (ast.BitAnd, ast.BitOr)):
+      # used on truth values only (result &= flag): python's & and | on bools
+      ta, tb = self.truthy(a), self.truthy(b)
+      if isinstance(ta, BK) and isinstance(tb, BK):
+        return self.lift((ta.v and tb.v) if isinstance(op, ast.BitAnd) else (ta.v or tb.v))
+      return SE(as_int(BoolOp("and" if isinstance(op, ast.BitAnd) else "or", [ta, tb])))
     name = {ast.Add: "add", ast.Sub: "sub"}.get(type(op))
     if name is None:
       raise TranslationError("binary operator %s" % type(op).__name__)
